@@ -44,6 +44,9 @@ class Session(logging_utils.LoggableMixin):
         self.access_level = access_level
         self.future = future
 
+        # Events queued on behalf of a previous, more privileged caller must not reach a less privileged one
+        self.queue = [e for e in self.queue if e.REQUIRED_ACCESS <= access_level]
+
         if self.queue:
             self.debug('has queued events, responding right away')
             self.respond()
